@@ -19,6 +19,7 @@ mod c15;
 mod c16;
 mod c17;
 mod c18;
+mod c19;
 mod c20;
 
 use rng::Rng;
@@ -48,6 +49,7 @@ fn prop(id: &str) -> Prop {
         "C07" => Prop { gen: c07::gen, run: c07::run },
         "C02" => Prop { gen: c02::gen, run: c02::run },
         "C03" => Prop { gen: c02::gen_c03, run: c02::run },
+        "C19" => Prop { gen: c19::gen, run: c19::run },
         "C13" => Prop { gen: c13::gen, run: c13::run },
         _ => { eprintln!("unknown property {}", id); std::process::exit(2) }
     }
